@@ -436,6 +436,7 @@ func getHitKey(tasks []*task, keys []string) []string {
 		for _, key := range keys {
 			if key == t.nodeKey {
 				ret = append(ret, t.nodeKey)
+				break // a node listed twice is one interrupt point
 			}
 		}
 	}
